@@ -1,6 +1,8 @@
 import Nsq.Model.Line
 import Nsq.Model.ProtoV2
 import Nsq.Model.HttpApi
+import Nsq.Model.HttpFull
+import Nsq.Model.Identify
 import Nsq.Spec.ProtoSpec
 /-!
 Driver for engine E3 (proto): one operation per input line, one canonical answer line out.
@@ -13,6 +15,7 @@ The broker and the tables persist across lines (a case is `reset` followed by op
   io <conf> <hexstream>
   iof <conf> <hexstream> <hexid,…>   (the ids are in flight for this connection)
   http <conf> <method> <hexpath> <hexquery> <contentLength|-1> <hexbody> <healthy>
+  httpx … (same fields)   whole-table model `HttpFull.serve`: status, headers, kind of body, broker
   spec <conf> <hexstream>
   name <hex> | b10 <hex> | pint <hex> | query <hex> | mpubtext <maxMsg> <maxBody> <hex>
 -/
@@ -153,6 +156,27 @@ def showQuery : Option (List (Bytes × Bytes)) → String
   | none => "err"
   | some kv => joinOr "&" (kv.map (fun p => s!"{hex p.1}={hex p.2}"))
 
+def showChanView (c : HttpFull.ChanView) : String :=
+  s!"{hex c.name};{if c.paused then 1 else 0};{c.clients};{c.total}"
+
+def showTopicView (t : HttpFull.TopicView) : String :=
+  s!"{hex t.name}:{if t.paused then 1 else 0}:{t.count}:{t.depth}:{joinOr "+" (t.chans.map showChanView)}"
+
+def showBody : HttpFull.Body → String
+  | .empty => "empty"
+  | .text s => s!"text:{s}"
+  | .freeText => "free"
+  | .optText => "str"
+  | .errJson m => s!"err:{m}"
+  | .tlsJson => "tls"
+  | .json .info => "info"
+  | .json (.stats ts c m) =>
+    let anyChan := ts.any (fun t => !t.chans.isEmpty)
+    s!"stats:{if anyChan then (if c then "1" else "0") else "-"}:{if m then 1 else 0}:{joinOr "/" (ts.map showTopicView)}"
+  | .json (.level n) => s!"level:{n}"
+  | .json (.cfgValue _) => "cfg"
+  | .external => "external"
+
 def stepLine (st : DState) (line : String) : DState × String :=
   match words line with
   | "conf" :: rest =>
@@ -163,6 +187,12 @@ def stepLine (st : DState) (line : String) : DState × String :=
     match unhex h, parseJson rest with
     | some body, some d => ({ st with json := (body, d) :: st.json }, "ok")
     | _, _ => (st, "bad-op")
+  | ["cfgstr", cid, names] =>
+    match st.confs.find? (·.1 == cid) with
+    | some (_, dc) =>
+      let dc' := { dc with http := { dc.http with cfgStrNames := (names.splitOn ",").map Names.ascii } }
+      ({ st with confs := (cid, dc') :: st.confs.filter (·.1 != cid) }, "ok")
+    | none => (st, "bad-op")
   | ["reset"] => ({ st with brokers := [] }, "ok")
   | ["io", cid, h] =>
     match st.confs.find? (·.1 == cid), unhex h with
@@ -219,6 +249,45 @@ def stepLine (st : DState) (line : String) : DState × String :=
       (st.setBroker cid r.2,
        s!"H={HttpApi.showStatus r.1.status} M={if r.1.msg.isEmpty then "-" else r.1.msg} B={showBroker r.2}")
     | _, _, _, _ => (st, "bad-op")
+  | ["httpx", cid, method, hp, hq, cl, hb, healthy] =>
+    match st.confs.find? (·.1 == cid), unhex hp, unhex hq, unhex hb with
+    | some (_, dc), some path, some query, some body =>
+      let rq : HttpApi.Request :=
+        { method := Names.ascii method, path := path, rawQuery := query, contentLength := parseInt cl,
+          body := body }
+      let r := HttpFull.serve dc.http (b01 healthy) (st.broker cid) rq
+      (st.setBroker cid r.2,
+       s!"W={HttpApi.showStatus r.1.status} CT={if r.1.ctJson then 1 else 0} X={if r.1.nsqHdr then 1 else 0} K={showBody r.1.body} B={showBroker r.2}")
+    | _, _, _, _ => (st, "bad-op")
+  | ["idn", cid, hb, obs, obt, mt, sr, fn, tls, defl, snap, dl, hcid, hhost, hua, hreg, hzone, maxDefl, auth] =>
+    match st.confs.find? (·.1 == cid), unhex hcid, unhex hhost, unhex hua, unhex hreg, unhex hzone with
+    | some (_, dc), some cid', some host, some ua, some reg, some zone =>
+      let x : Identify.IdFull :=
+        { d := { heartbeat := parseInt hb, outBufSize := parseInt obs, outBufTimeout := parseInt obt,
+                 msgTimeout := parseInt mt, sampleRate := parseInt sr, featureNegotiation := b01 fn,
+                 tlsv1 := b01 tls, deflate := b01 defl, snappy := b01 snap },
+          deflateLevel := parseInt dl, info := ⟨cid', host, ua, reg, zone⟩ }
+      let nc : Identify.NConf :=
+        { maxDeflateLevel := parseInt maxDefl, maxMsgTimeoutMs := dc.conf.maxMsgTimeoutMs, authRequired := b01 auth }
+      let c0 : Identify.Client := { info := ⟨[], [], [], [], []⟩, conn := freshConn dc.hbNs dc.obtNs dc.mtNs }
+      let showC (c : Identify.Client) : String :=
+        s!"C={c.conn.hbNs},{c.conn.obSize},{c.conn.obtNs},{c.conn.sampleRate},{c.conn.msgTimeoutNs} M={hex c.info.clientID},{hex c.info.hostname},{hex c.info.userAgent},{hex c.info.region},{hex c.info.zone}"
+      let bi (b : Bool) : String := if b then "1" else "0"
+      match Identify.identifyFull dc.conf nc c0 x with
+      | .badBody c => (st, s!"O=badbody {showC c} D=- U=-")
+      | .ok c => (st, s!"O=ok {showC c} D=- U=-")
+      | .failed c => (st, s!"O=failed {showC c} D=- U=-")
+      | .doc c r n =>
+        (st, s!"O=doc {showC c} D={r.maxRdyCount},{r.maxMsgTimeout},{r.msgTimeout},{bi r.tlsv1},{bi r.deflate},{r.deflateLevel},{r.maxDeflateLevel},{bi r.snappy},{r.sampleRate},{bi r.authRequired},{r.outputBufferSize},{r.outputBufferTimeout} U={if n.tlsv1 then "-" else bi n.snappy ++ bi n.deflate}")
+    | _, _, _, _, _, _ => (st, "bad-op")
+  | ["jsarr", h] =>
+    match unhex h with
+    | some b => (st, if HttpFull.isStrArrayJson b then "accept" else "reject")
+    | none => (st, "bad-op")
+  | ["loglevel", h] =>
+    match unhex h with
+    | some b => (st, showOptNat (HttpFull.parseLogLevel b))
+    | none => (st, "bad-op")
   | ["name", h] =>
     match unhex h with
     | some b => (st, if Names.isValidName b then "valid" else "invalid")
